@@ -289,6 +289,10 @@ var c15Nested = [][2]string{
 	{"BEGIN { a = [3, 1, 2]; s = a.sort(); s[0] = 99; s[2] += 1; print a, s }", "[3, 1, 2] [99, 2, 4]\n"},
 	{"BEGIN { a = [[2], [1]]; s = a.sort(); a[0] = 7; print s.length(), a }", "2 [7, [1]]\n"},
 	{"BEGIN { a = [1, null, 'x']; print a.contains(null), a.contains('x'), a.contains(2) }", "true true false\n"},
+	// the receiver is determined before the arguments are evaluated
+	{"BEGIN { m = [[10], [20]]; m[m.length() - 1].push(m.pop().length()); print m }", "[[10]]\n"},
+	{"BEGIN { m = [[1], [2], [3]]; print m[0].push(m.popfirst()[0] + 10), m }", "[1, 11] [[2], [3]]\n"},
+	{"BEGIN { i = 0; a = [[1], [2]]; print a[i].contains((i = 1)), a[i] }", "true [2]\n"},
 	// stability on arrays longer than any small-slice special case: elements that tie on
 	// their string form (1 and '1', true / null / []) keep their order
 	{"BEGIN { a = ['1', 1, '1', 1, '1', 1, '1', 1, '1', 1, '1', 1, '1', 1, 0]; print a.sort() }", "[0, \"1\", 1, \"1\", 1, \"1\", 1, \"1\", 1, \"1\", 1, \"1\", 1, \"1\", 1]\n"},
